@@ -192,7 +192,8 @@ NewTx(s, a, kind, phase, pkt, tl, h, tit, tid) ==
 
 DoPublish(s, a, tit, tid) ==
     LET pk == [P0 EXCEPT !.t = "PUBLISH", !.qos = a.qos, !.tit = tit, !.tid = tid]
-    IN  IF a.qos \in {0, 3}
+    IN  IF a.qos > 3 THEN Res(s, <<>>, {Instant(s, a, "badqos")})   \* refused: invalid QoS
+        ELSE IF a.qos \in {0, 3}
         THEN Res(s, <<pk>>, {Instant(s, a, "nil")})   \* whatever MsgId it carries is irrelevant (never referred to)
         ELSE NewTx(s, a, IF a.qos = 1 THEN "pub1" ELSE "pub2", "pubrec", pk, a.tl, "", tit, tid)
 
@@ -558,20 +559,26 @@ Init == /\ s = InitState(Cfg0)
 
 Life(st) == {c \in DOMAIN st.calls : st.calls[c].api \in {"Connect", "Sleep", "Disconnect", "Close"}}
 
+(* API records with any = TRUE ("out of place" calls) are issued in every  *)
+(* client state, also where the library refuses them or where the gateway  *)
+(* would: Sleep before Connect, Publish of an unregistered topic or with   *)
+(* an invalid QoS, data calls while disconnected / asleep / awake.  The    *)
+(* specification: a refused call returns an error at once, sends nothing,  *)
+(* changes nothing and leaves nothing behind.                              *)
 (* assumptions about the application: life-cycle calls are not issued     *)
 (* concurrently, data calls only while active; Close may come at any time  *)
 (* the client is not in the middle of another life-cycle call              *)
 ApiOk(st, a) ==
     /\ st.alive /\ st.ncall < MaxCalls
     /\ CASE a.api = "Connect"    -> Life(st) = {} /\ st.st \in {"disconnected", "awake"}
-         [] a.api = "Sleep"      -> Life(st) = {} /\ st.st \in {"active", "awake"}
-         [] a.api = "Disconnect" -> Life(st) = {} /\ st.st \in {"active", "awake"}
+         [] a.api = "Sleep"      -> Life(st) = {} /\ (st.st \in {"active", "awake"} \/ a.any)
+         [] a.api = "Disconnect" -> Life(st) = {} /\ (st.st \in {"active", "awake"} \/ a.any)
          [] a.api = "Close"      -> \/ Life(st) = {}
                                     \/ /\ "DISCONNECT" \in DOMAIN st.ty
                                        /\ st.ty["DISCONNECT"].kind = "sleep" /\ st.ty["DISCONNECT"].phase = "asleep"
                                        /\ Cardinality(Life(st)) = 1
-         [] a.api = "Ping"       -> st.st = "active" /\ "PINGREQ" \notin DOMAIN st.ty /\ st.cfg.ka = 0
-         [] OTHER                -> st.st = "active"
+         [] a.api = "Ping"       -> (st.st = "active" \/ a.any) /\ "PINGREQ" \notin DOMAIN st.ty /\ st.cfg.ka = 0
+         [] OTHER                -> st.st = "active" \/ a.any
 
 GwMids(st, p) ==
     CASE p.midsrc = "none" -> {0}
